@@ -121,23 +121,59 @@ def replaceFirst (xs : List Comp) (a b : Comp) : List Comp :=
   | [] => []
   | x :: rest => if x = a then b :: rest else x :: replaceFirst rest a b
 
+/-- one month directive (`%B` or `%b`) of `parse_alpha`; `none` = the attempt raised inside `except Exception: pass` -/
+def alphaMonthStep (p : PS) (t : TI) (mv : Option Nat) : Option PS :=
+  match mv with
+  | none => none
+  | some v =>
+    if !truthy p.month then some { p with month := some v, tokMonth := some (.pair t) }
+    else if p.autoOrder.contains .month then
+      some { p with month := some v, day := p.month, tokDay := p.tokMonth, tokMonth := some (.pair t),
+                    autoOrder := replaceFirst p.autoOrder .month .day }
+    else none
+
 def parseAlpha (p : PS) (t : TI) : Except PyErr PS :=
   if t.wk.isSome ∧ p.weekdaySet = false then .ok { p with weekdaySet := true, wkIdx := t.wk }
   else
-    let step : Option Nat → Option PS := fun mv =>
-      match mv with
-      | none => none
-      | some v =>
-        if !truthy p.month then some { p with month := some v, tokMonth := some (.pair t) }
-        else if p.autoOrder.contains .month then
-          some { p with month := some v, day := p.month, tokDay := p.tokMonth, tokMonth := some (.pair t),
-                        autoOrder := replaceFirst p.autoOrder .month .day }
-        else none
-    match step t.mon with
+    match alphaMonthStep p t t.mon with
     | some r => .ok r
-    | none => match step t.monb with
+    | none => match alphaMonthStep p t t.monb with
       | some r => .ok r
       | none => .error (.value .unable)
+
+/-- the time-detection block of the `__init__` loop at filtered index `i` (token `t`): `some (tt, skips)` when a time
+    token is recognised — its assembled text and the indices to skip -/
+def timeDetect (toks : List TI) (i : Nat) (t : TI) : Option (List Char × List Nat) :=
+  let merged := t.hmMerge
+  let token := merged.getD t.text
+  let skipAdd := if merged.isSome then [i+1] else []
+  let meridianIndex := if merged.isSome then i + 2 else i + 1
+  let hasColon := merged.isSome || t.colon
+  let dotAfter := if merged.isSome then t.hmDotAfter else t.dotAfterSame
+  let micro : Option (List Char) :=
+    match toks[i+1]? with
+    | none => none
+    | some nx => match nx.micro with
+      | none => none
+      | some ms => if hasColon && dotAfter then some ms else none
+  let meridianIndex := if micro.isSome then meridianIndex + 1 else meridianIndex
+  let meridian : Option (List Char) := match toks[meridianIndex]? with
+    | none => none
+    | some mt => mt.merid
+  if hasColon || meridian.isSome || micro.isSome then
+    let (tt, sk) := match meridian, micro with
+      | some me, none => (token ++ [' '] ++ me, [meridianIndex])
+      | none, some mi => (token ++ ['.'] ++ mi, [i+1])
+      | some me, some mi => (token ++ ['.'] ++ mi ++ [' '] ++ me, [i+1, meridianIndex])
+      | none, none => (token, [])
+    some (tt, skipAdd ++ sk)
+  else none
+
+/-- one iteration of the `__init__` loop on a token that is neither skipped nor a skip token -/
+def initStep (st : PSettings) (toks : List TI) (i : Nat) (t : TI) (p : PS) : Except PyErr PS :=
+  match (if p.timeSet then none else timeDetect toks i t) with
+  | some (tt, sk) => .ok { p with tokTime := some tt, timeSet := true, skipIndex := p.skipIndex ++ sk }
+  | none => if t.ty = 0 then parseNumber p t st.order else parseAlpha p t
 
 /-- the `__init__` loop over filtered tokens -/
 def initLoop (st : PSettings) (toks : List TI) : Nat → Nat → PS → Except PyErr PS
@@ -148,38 +184,9 @@ def initLoop (st : PSettings) (toks : List TI) : Nat → Nat → PS → Except P
     | some t =>
       if p.skipIndex.contains i then initLoop st toks fuel (i+1) p else
       if t.skip then initLoop st toks fuel (i+1) p else
-      let timeBranch : Option PS :=
-        if p.timeSet then none else
-        let merged := t.hmMerge
-        let token := merged.getD t.text
-        let skipAdd := if merged.isSome then [i+1] else []
-        let meridianIndex := if merged.isSome then i + 2 else i + 1
-        let hasColon := merged.isSome || t.colon
-        let dotAfter := if merged.isSome then t.hmDotAfter else t.dotAfterSame
-        let micro : Option (List Char) :=
-          match toks[i+1]? with
-          | none => none
-          | some nx => match nx.micro with
-            | none => none
-            | some ms => if hasColon && dotAfter then some ms else none
-        let meridianIndex := if micro.isSome then meridianIndex + 1 else meridianIndex
-        let meridian : Option (List Char) := match toks[meridianIndex]? with
-          | none => none
-          | some mt => mt.merid
-        if hasColon || meridian.isSome || micro.isSome then
-          let (tt, sk) := match meridian, micro with
-            | some me, none => (token ++ [' '] ++ me, [meridianIndex])
-            | none, some mi => (token ++ ['.'] ++ mi, [i+1])
-            | some me, some mi => (token ++ ['.'] ++ mi ++ [' '] ++ me, [i+1, meridianIndex])
-            | none, none => (token, [])
-          some { p with tokTime := some tt, timeSet := true, skipIndex := p.skipIndex ++ skipAdd ++ sk }
-        else none
-      match timeBranch with
-      | some p' => initLoop st toks fuel (i+1) p'
-      | none =>
-        match (if t.ty = 0 then parseNumber p t st.order else parseAlpha p t) with
-        | .error e => .error e
-        | .ok p' => initLoop st toks fuel (i+1) p'
+      match initStep st toks i t p with
+      | .error e => .error e
+      | .ok p' => initLoop st toks fuel (i+1) p'
 
 /-- unresolved attributes are filled from tokens displaced by a later, better fitting token -/
 def fillUnknown (p : PS) : Except PyErr PS :=
@@ -211,9 +218,10 @@ def correctLeap (pref : PrefDates) (y : Nat) : Nat :=
   | .past => prevLeap y
   | .currentPeriod => let n := nextLeap y; let pv := prevLeap y; if n - y < y - pv then n else pv
 
+/-- truthiness of `self._token_<attr>`: a `(token, type)` tuple is truthy; a bare string is only ever stored
+    after `int(token)` succeeded, hence is non-empty -/
 def tokTruthy : Option TokRef → Bool
-  | some (.pair _) => true
-  | some (.plain s) => !s.isEmpty
+  | some _ => true
   | none => false
 
 /-- does the message of this error contain one of `_get_datetime_obj`'s trigger texts? -/
@@ -245,9 +253,10 @@ def timeParser (ts : List Char) : Except PyErr DT := timeParserGo (stripWs ts) G
 
 def pick (v : Option Nat) (dflt : Nat) : Nat := match v with | some x => if x ≠ 0 then x else dflt | none => dflt
 
-def results (st : PSettings) (p : PS) : Except PyErr DT := do
-  let missing := [Comp.day, .month, .year].filter (fun f => !truthy (p.getC f))
-  checkStrict st missing
+def missingOf (p : PS) : List Comp := [Comp.day, .month, .year].filter (fun f => !truthy (p.getC f))
+
+/-- `_results` after the strictness check -/
+def resultsCore (st : PSettings) (p : PS) : Except PyErr DT := do
   let time ← match p.tokTime with
     | some tt => (timeParser tt).map some
     | none => pure none
@@ -255,6 +264,11 @@ def results (st : PSettings) (p : PS) : Except PyErr DT := do
   match time with
   | some t => getDatetimeObj st p y mo d t.h t.mi t.s t.us
   | none => getDatetimeObj st p y mo d 0 0 0 0
+
+def results (st : PSettings) (p : PS) : Except PyErr DT :=
+  match checkStrict st (missingOf p) with
+  | .error e => .error e
+  | .ok _ => resultsCore st p
 
 def isFuture (pd : PrefDates) : Bool := pd = .future
 def isPast (pd : PrefDates) : Bool := pd = .past
@@ -324,16 +338,40 @@ def getPeriod (st : PSettings) (p : PS) : Period :=
   else if p.timeSet ∨ truthy p.day then .day
   else if truthy p.month then .month else if truthy p.year then .year else .day
 
+/-- month preference: `_correct_for_month` -/
+def correctMonth (st : PSettings) (p : PS) (t : DT) : Except PyErr DT :=
+  if tokTruthy p.tokMonth then .ok t else setMonth st.preferMonth t st.now.mo
+/-- day preference: `_correct_for_day` -/
+def correctDay (st : PSettings) (p : PS) (t : DT) : Except PyErr DT :=
+  if tokTruthy p.tokDay || p.weekdaySet || (p.tokTime.map (fun s => !s.isEmpty)).getD false then .ok t
+  else setDay st.preferDay t st.now.d
+
+/-- everything `_parser.parse` does after `_results` -/
+def finish (st : PSettings) (p : PS) (t : DT) : Except PyErr (DT × Period) :=
+  match correctTimeFrame st p t with
+  | .error e => .error e
+  | .ok t1 =>
+    match correctMonth st p t1 with
+    | .error e => .error e
+    | .ok t2 =>
+      match correctDay st p t2 with
+      | .error e => .error e
+      | .ok t3 => .ok (t3, getPeriod st p)
+
+/-- the parse state after the `__init__` loop and the unresolved-attribute fill -/
+def parseState (st : PSettings) (toks : List TI) : Except PyErr PS :=
+  match initLoop st toks (toks.length + 1) 0 {} with
+  | .error e => .error e
+  | .ok p => fillUnknown p
+
 /-- stage 2: `_parser.parse` after tokenisation and classification -/
-def absParseToks (st : PSettings) (toks : List TI) : Except PyErr (DT × Period) := do
-  let p ← initLoop st toks (toks.length + 1) 0 {}
-  let p ← fillUnknown p
-  let t ← results st p
-  let t ← correctTimeFrame st p t
-  let t ← if tokTruthy p.tokMonth then pure t else setMonth st.preferMonth t st.now.mo
-  let t ← if tokTruthy p.tokDay || p.weekdaySet || (p.tokTime.map (fun s => !s.isEmpty)).getD false then pure t
-          else setDay st.preferDay t st.now.d
-  return (t, getPeriod st p)
+def absParseToks (st : PSettings) (toks : List TI) : Except PyErr (DT × Period) :=
+  match parseState st toks with
+  | .error e => .error e
+  | .ok p =>
+    match results st p with
+    | .error e => .error e
+    | .ok t => finish st p t
 
 -- ------------------------------------------------------------------ stage 1
 
